@@ -4,6 +4,7 @@ import re
 from .. import mir, hir
 from ..facts import relfile
 from ..report import RuleResult
+from .c01 import field_roots
 from .c04 import leaf_table, norm_rust
 from .c09 import names
 
@@ -301,13 +302,29 @@ def order_in(stmts, preds):
     return out
 
 
-def cond_mentions(s, word):
+def cond_mentions(s, word, ld=None):
+    """The statement is an `if` whose condition tests the struct field `word` (directly, or through a binding of that
+    field in a destructuring pattern - whatever the binding is called)."""
     e = s.get("e") if s.get("k") == "semi" else s
     if not isinstance(e, dict) or e.get("k") != "if":
         return False
     c = e["cond"]
     fields = {n.get("n") for n in hir.nodes(c, "field")}
-    return word in fields or word in names(c)
+    return word in fields or word in field_roots(ld, c)
+
+
+def mentions_field(ld, e, word, depth=0):
+    """Does the value of `e` come (through let-bindings) from an expression that reads the field `word`?"""
+    if depth > 10 or not isinstance(e, (dict, list)):
+        return False
+    for n in hir.walk(e):
+        if n.get("k") == "field" and n.get("n") == word:
+            return True
+        if n.get("k") == "path" and hir.res_local(n) is not None and ld is not None:
+            d = ld.get(hir.res_local(n))
+            if d and d[1] is not None and not (d[2] and d[2][0] == "arm") and mentions_field(ld, d[1], word, depth + 1):
+                return True
+    return False
 
 
 def rule_a4(F):
@@ -327,8 +344,9 @@ def rule_a4(F):
         r.missing("ModuleBuilder::declare_function")
     else:
         st = stmt_list(db.hir["value"])
+        dld = hir.LocalDefs(db.hir)
         has_push = lambda s: any(c["m"] == "push" for c in hir.nodes(s, "mcall"))
-        idx = order_in(st, [lambda s: cond_mentions(s, "return_ptr") and has_push(s), lambda s: cond_mentions(s, "context") and has_push(s),
+        idx = order_in(st, [lambda s: cond_mentions(s, "return_ptr", dld) and has_push(s), lambda s: cond_mentions(s, "context", dld) and has_push(s),
                             lambda s: any(n.get("k") == "loop" for n in hir.walk(s)) and has_push(s)])
         r.inst("declare_function", {"return_ptr": idx[0], "context": idx[1], "parameters": idx[2]})
         if None in idx or not (idx[0] < idx[1] < idx[2]):
@@ -337,29 +355,80 @@ def rule_a4(F):
         r.missing("FuncGen::entry_block")
     else:
         st = stmt_list(eb.hir["value"])
+        eld = hir.LocalDefs(eb.hir)
         uses_next = lambda s: any(c["m"] == "next" for c in hir.nodes(s, "mcall"))
-        idx = order_in(st, [lambda s: cond_mentions(s, "return_ptr") and uses_next(s), lambda s: cond_mentions(s, "context") and uses_next(s),
+
+        def kind_stmt(s, kind):
+            """`if <flag> { self.def(variable_map[Var { kind: VarKind::<kind> }], args.next()) }`"""
+            e = s.get("e") if s.get("k") == "semi" else s
+            if not isinstance(e, dict) or e.get("k") != "if" or not uses_next(s):
+                return False
+            return any(f[0] == "kind" and hir.last(str(hir.result_desc(f[1]) or "")).split("(")[0] == kind
+                       for x in hir.nodes(e["then"], "struct") for f in x["fields"])
+        idx = order_in(st, [lambda s: kind_stmt(s, "Return"), lambda s: kind_stmt(s, "Context"),
                             lambda s: any(n.get("k") == "loop" for n in hir.walk(s)) and any(c["m"] == "zip" for c in hir.nodes(s, "mcall"))])
         r.inst("entry_block", {"return_ptr": idx[0], "context": idx[1], "parameters": idx[2]})
         if None in idx or not (idx[0] < idx[1] < idx[2]):
             r.bad(eb.path, "parameter order", relfile(eb.file), eb.line, "block parameters must be consumed as return pointer, context, parameters (statement positions %s)" % idx)
+        else:
+            # the flags guarding those statements are parameters; the caller must feed them from the signature's fields of the same meaning
+            flag_pos = {}
+            for which, i in (("return_ptr", idx[0]), ("context", idx[1])):
+                e = st[i].get("e") if st[i].get("k") == "semi" else st[i]
+                ps = hir.param_roots(eb.hir, eld, e["cond"]) - {0}
+                if len(ps) == 1:
+                    flag_pos[which] = next(iter(ps))
+            callers = 0
+            for ob in F.bodies_in(["src/codegen/mod.rs"]):
+                if not ob.hir:
+                    continue
+                old = None
+                for c in hir.nodes(ob.hir.get("value") or {}, "mcall"):
+                    if c["m"] != "entry_block" or not (hir.call_def(c) or c.get("def") or "").endswith("entry_block"):
+                        continue
+                    old = old or hir.LocalDefs(ob.hir)
+                    callers += 1
+                    for which, pos in flag_pos.items():
+                        a = c["args"][pos - 1] if pos - 1 < len(c["args"]) else None
+                        ok = a is not None and mentions_field(old, a, which)
+                        r.inst("entry_block caller flag %s" % which, {"caller": ob.path, "position": pos, "from_field": ok})
+                        if not ok:
+                            r.bad(ob.path, "entry_block flag " + which, relfile(ob.file), c["line"],
+                                  "the flag that makes entry_block consume the %s parameter (position %d) is not the signature's `%s` field" % (which, pos, which))
+            if len(flag_pos) != 2 or callers == 0:
+                r.missing("entry_block flags (%s) and caller (%d)" % (sorted(flag_pos), callers))
     if ib is None:
         r.missing("FuncGen::instruction")
     else:
         ms = hir.find_match_on(ib.hir["value"], "Instruction::", min_arms=10)
+        ild = hir.LocalDefs(ib.hir)
+
+        def arg_vec(body):
+            """The local holding the argument vector: what the arm passes to `.call(func, &args)`."""
+            for c in hir.nodes(body, "mcall"):
+                if c["m"] in ("call", "call_indirect") and len(c["args"]) >= 2:
+                    l = hir.res_local(hir.peel_refs(hir.strip(c["args"][-1])))
+                    if l is not None:
+                        return l
+            return None
+
+        def on_vec(c, V):
+            return V is not None and hir.res_local(hir.peel_refs(hir.strip(c["recv"]))) == V
         for rw in (hir.table(ms[0]) if ms else []):
             if any(a.startswith("Instruction::Call{") for a in rw["alts"]):
                 st = stmt_list(rw["body"])
-                has_push = lambda s: any(c["m"] == "push" and names(c["recv"]) == {"new_args"} for c in hir.nodes(s, "mcall"))
-                idx = order_in(st, [lambda s: cond_mentions(s, "return_ptr") and has_push(s), lambda s: cond_mentions(s, "ctx") and has_push(s),
+                V = arg_vec(rw["body"])
+                has_push = lambda s: any(c["m"] == "push" and on_vec(c, V) for c in hir.nodes(s, "mcall"))
+                idx = order_in(st, [lambda s: cond_mentions(s, "return_ptr", ild) and has_push(s), lambda s: cond_mentions(s, "ctx", ild) and has_push(s),
                                     lambda s: any(n.get("k") == "loop" for n in hir.walk(s)) and has_push(s)])
                 r.inst("Instruction::Call", {"return_ptr": idx[0], "ctx": idx[1], "args": idx[2]})
                 if None in idx or not (idx[0] < idx[1] < idx[2]):
                     r.bad(ib.path, "Call argument order", relfile(ib.file), rw["line"], "call arguments must be assembled as return pointer, context, arguments (statement positions %s)" % idx)
             if any(a.startswith("Instruction::CallRuntime{") for a in rw["alts"]):
                 st = stmt_list(rw["body"])
-                idx = order_in(st, [lambda s: any(c["m"] == "push" and names(c["args"][0]) == {"ptr"} for c in hir.nodes(s, "mcall")),
-                                    lambda s: any(c["m"] == "extend" and names(c["recv"]) == {"new_args"} for c in hir.nodes(s, "mcall"))])
+                V = arg_vec(rw["body"])
+                idx = order_in(st, [lambda s: any(c["m"] == "push" and on_vec(c, V) and mentions_field(ild, c["args"][0], "runtime_functions") for c in hir.nodes(s, "mcall")),
+                                    lambda s: any(c["m"] == "extend" and on_vec(c, V) for c in hir.nodes(s, "mcall"))])
                 r.inst("Instruction::CallRuntime", {"fn_pointer": idx[0], "args": idx[1]})
                 if None in idx or not idx[0] < idx[1]:
                     r.bad(ib.path, "CallRuntime argument order", relfile(ib.file), rw["line"], "the trampoline takes the closure pointer first, then the (out pointer and) arguments")
